@@ -35,6 +35,7 @@ type c09Gen struct {
 	tp      uint64
 	oldTime bool
 	fresh   bool
+	handover bool
 }
 
 func newC09Gen(r *Rec, w *c09World) *c09Gen {
@@ -94,6 +95,45 @@ func (g *c09Gen) size() int {
 
 // nextSet: the list an epoch header announces, relative to the current one.
 func (g *c09Gen) nextSet(cur []common.Address) []common.Address {
+	if g.handover {
+		other := func(n int) []common.Address { // n validators, none of them in cur
+			var out []common.Address
+			for _, i := range g.r.Rng.Perm(len(g.addrs)) {
+				in := false
+				for _, c := range cur {
+					in = in || c == g.addrs[i]
+				}
+				if !in && len(out) < n {
+					out = append(out, g.addrs[i])
+				}
+			}
+			return out
+		}
+		switch len(cur) {
+		case 1:
+			switch g.r.Rng.Intn(5) {
+			case 0, 1:
+				return other(1) // 1 -> a different single validator
+			case 2:
+				return other(3)
+			case 3:
+				return append(other(2), cur[0]) // 1 -> 3 keeping the old one
+			default:
+				return other(2 + g.r.Rng.Intn(20))
+			}
+		default:
+			switch g.r.Rng.Intn(4) {
+			case 0:
+				return other(1) // N -> 1 (new)
+			case 1:
+				return cur[:1] // N -> 1 (one of the old ones)
+			case 2:
+				return other(1 + g.r.Rng.Intn(3))
+			default:
+				return cur
+			}
+		}
+	}
 	switch g.r.Rng.Intn(10) {
 	case 0, 1, 2: // unchanged
 		return cur
@@ -189,10 +229,21 @@ func (g *c09Gen) build(cs *bsctypes.ClientState, signer common.Address, next []c
 		Extra: extra, MixDigest: make([]byte, 32), Nonce: make([]byte, 8),
 	}
 	h.Difficulty = []byte{1}
-	if c09InTurn(cs, signer) {
+	if g.turnOf(cs, signer) {
 		h.Difficulty = []byte{2}
 	}
 	return h
+}
+
+// turnOf: in-turn by the prescribed set; a validator retired by the last switch uses the turn of the set it
+// belonged to (the most plausible forgery: exactly what it would have sealed had the switch not happened)
+func (g *c09Gen) turnOf(cs *bsctypes.ClientState, signer common.Address) bool {
+	if !c09Distinct(cs.Validators)[signer] && c09Distinct(g.w.prevVals)[signer] {
+		old := *cs
+		old.Validators = g.w.prevVals
+		return c09InTurn(&old, signer)
+	}
+	return c09InTurn(cs, signer)
 }
 
 func c09InTurn(cs *bsctypes.ClientState, signer common.Address) bool {
@@ -326,6 +377,7 @@ type c09Plan struct {
 	oldTime bool
 	fresh   bool // header time = block time, block time advances by up to the trusting period: several states expire at once
 	mutRate int // one mutation attempt every mutRate heights (0 = none)
+	handover bool // small sets handing over to other small / larger sets at every epoch boundary
 	sweep   bool
 }
 
@@ -333,7 +385,7 @@ func (g *c09Gen) history(p c09Plan) {
 	r := g.r
 	g.emit("reset")
 	g.chainID = []uint64{56, 97, 1, 714}[r.Rng.Intn(4)]
-	g.epoch, g.tp, g.btStep, g.oldTime, g.fresh = p.epoch, p.tp, p.btStep, p.oldTime, p.fresh
+	g.epoch, g.tp, g.btStep, g.oldTime, g.fresh, g.handover = p.epoch, p.tp, p.btStep, p.oldTime, p.fresh, p.handover
 	g.bt = 1_700_000_000
 	vals := g.subset(p.n0)
 	start := p.startK * p.epoch
@@ -362,6 +414,11 @@ func (g *c09Gen) history(p c09Plan) {
 	}
 	for s := 0; s < p.steps; s++ {
 		cs := g.w.clientState(g.w.ctx)
+		// signers, turn and difficulty are chosen from the validator set the RULE prescribes (harness bookkeeping),
+		// not from what the client happens to store: identical for a correct client
+		pcs := *cs
+		pcs.Validators = g.w.presVals
+		cs = &pcs
 		g.bt += g.btStep
 		if g.fresh {
 			g.bt += []uint64{0, 1, g.tp / 2, g.tp - 3}[r.Rng.Intn(4)]
@@ -408,7 +465,20 @@ func (g *c09Gen) history(p c09Plan) {
 		advanced := false
 		if p.sweep || r.Rng.Intn(3) == 0 {
 			members := c09Distinct(cs.Validators)
-			switch c := r.Rng.Intn(5); c {
+			c := r.Rng.Intn(5)
+			if len(g.w.prevVals) > 0 && num-g.w.switchAt <= 3 && r.Rng.Intn(2) == 0 {
+				c = 5
+			}
+			switch c {
+			case 5: // a validator retired by the last switch
+				for _, v := range g.w.prevVals {
+					if a := common.BytesToAddress(v); !members[a] {
+						if _, ok := g.keyOf[a]; ok {
+							advanced = attempt("retired", a)
+							break
+						}
+					}
+				}
 			case 0: // recently signed at a random distance inside the window
 				if n/2 >= 1 {
 					d := uint64(1 + r.Rng.Intn(n/2))
@@ -472,6 +542,16 @@ func (g *c09Gen) history(p c09Plan) {
 		if _, in := recent(inturn, n/2); !in && r.Rng.Intn(4) > 0 {
 			signer = inturn
 		}
+		newcomer := false
+		if len(g.w.prevVals) > 0 && num-g.w.switchAt <= 3 { // right after a switch: a validator the old set did not have
+			old := c09Distinct(g.w.prevVals)
+			for _, a := range elig {
+				if !old[a] {
+					signer, newcomer = a, true
+					break
+				}
+			}
+		}
 		if _, ok := g.keyOf[signer]; !ok {
 			r.Count("hist.stuck-foreign-key")
 			break
@@ -523,6 +603,9 @@ func (g *c09Gen) history(p c09Plan) {
 			break
 		}
 		r.Count("valid.accepted")
+		if newcomer {
+			r.Count("valid.accepted.new-validator")
+		}
 		if num < uint64(n/2+1) {
 			r.Count("valid.accepted.number-below-limit")
 		}
@@ -545,6 +628,7 @@ type c09Step struct {
 	signer common.Address
 	time   uint64
 	next   []common.Address
+	reject bool // this step is expected to be refused; the history goes on with the same head
 }
 
 func (g *c09Gen) directedKeys(n int) []common.Address {
@@ -586,11 +670,15 @@ func (g *c09Gen) directed(name string, epoch, tp, start uint64, vals []common.Ad
 	}
 	g.seal(head, headSealer)
 	out := emit(c09CreateOp(g.chainID, epoch, tp, headTime, c09AddrBytes(vals), head))
+	alive := strings.HasPrefix(out, "ok")
 	for i, st := range steps {
-		if !strings.HasPrefix(out, "ok") {
+		if !alive {
 			break
 		}
 		cs := g.w.clientState(g.w.ctx)
+		pcs := *cs
+		pcs.Validators = g.w.presVals // turn / difficulty by the prescribed set
+		cs = &pcs
 		parent := &cs.Header
 		num := parent.Height.RevisionHeight + 1
 		ex := make([]byte, 32)
@@ -605,11 +693,14 @@ func (g *c09Gen) directed(name string, epoch, tp, start uint64, vals []common.Ad
 			Root: crypto.Keccak256([]byte{byte(num)}), TxHash: zero, ReceiptHash: zero, Difficulty: []byte{1}, GasLimit: 30_000_000, GasUsed: 21000,
 			Time: st.time, Extra: ex, MixDigest: zero, Nonce: make([]byte, 8),
 		}
-		if c09InTurn(cs, st.signer) {
+		if g.turnOf(cs, st.signer) {
 			h.Difficulty = []byte{2}
 		}
 		g.seal(h, st.signer)
 		out = emit(c09UpdateOp(st.bt, g.chainID, h))
+		if !st.reject && !strings.HasPrefix(out, "ok") {
+			alive = false
+		}
 		if i == len(steps)-1 {
 			if strings.HasPrefix(out, "ok") {
 				g.r.Count("directed." + name + ".last-accepted")
@@ -637,6 +728,19 @@ func (g *c09Gen) allDirected() {
 	g.directed("expiry-two", 100, 5, 100, k[:6], k[0], 100, []c09Step{
 		{bt: 101, signer: k[1], time: 100}, {bt: 102, signer: k[2], time: 200}, {bt: 110, signer: k[3], time: 200},
 		{bt: 111, signer: k[1], time: 200}})
+	// single validator handing over to a different single validator: the epoch header is itself the switch point
+	g.directed("handover-1to1", 4, 999_999_999, 4, k[:1], k[0], 100, []c09Step{
+		{bt: 103, signer: k[0], time: 103}, {bt: 106, signer: k[0], time: 106}, {bt: 109, signer: k[0], time: 109},
+		{bt: 112, signer: k[0], time: 112, next: k[1:2]},
+		{bt: 115, signer: k[0], time: 115, reject: true}, {bt: 115, signer: k[1], time: 115}})
+	// 1 -> 3 at the epoch header, then 3 -> 1 one block after the next epoch header
+	g.directed("handover-1to3to1", 4, 999_999_999, 4, k[:1], k[0], 100, []c09Step{
+		{bt: 103, signer: k[0], time: 103}, {bt: 106, signer: k[0], time: 106}, {bt: 109, signer: k[0], time: 109},
+		{bt: 112, signer: k[0], time: 112, next: k[1:4]},
+		{bt: 115, signer: k[0], time: 115, reject: true}, {bt: 115, signer: k[1], time: 115},
+		{bt: 118, signer: k[2], time: 118}, {bt: 121, signer: k[3], time: 121},
+		{bt: 124, signer: k[1], time: 124, next: k[4:5]}, {bt: 127, signer: k[2], time: 127},
+		{bt: 130, signer: k[3], time: 130, reject: true}, {bt: 130, signer: k[4], time: 130}})
 	g.directed("growth", 4, 999_999_999, 0, k[:3], k[0], 100, []c09Step{
 		{bt: 103, signer: k[1], time: 103}, {bt: 106, signer: k[0], time: 106}, {bt: 109, signer: k[1], time: 109},
 		{bt: 112, signer: k[2], time: 112, next: k}, {bt: 115, signer: k[1], time: 115}, {bt: 118, signer: k[0], time: 118}})
@@ -699,11 +803,19 @@ func TestC09(t *testing.T) {
 		case 4:
 			p.sweep = true
 			p.startK = uint64(1 + r.Rng.Intn(50))
+		case 5: // single-validator and tiny sets handing over at every epoch boundary (switch offset 0 / 1)
+			p.handover = true
+			p.sweep = true
+			p.n0 = []int{1, 1, 1, 2, 3}[r.Rng.Intn(5)]
+			p.epoch = uint64(2 + r.Rng.Intn(7))
+			p.startK = uint64(r.Rng.Intn(20))
 		default:
 			p.startK = uint64(r.Rng.Intn(50))
 		}
 		p.steps = 20 + r.Rng.Intn(40)
-		if r.Rng.Intn(3) == 0 { // cross at least one epoch boundary and the switch offset
+		if p.handover {
+			p.steps = 3*int(p.epoch) + 6 + r.Rng.Intn(12)
+		} else if r.Rng.Intn(3) == 0 { // cross at least one epoch boundary and the switch offset
 			p.steps = int(p.epoch) + p.n0/2 + 5 + r.Rng.Intn(30)
 			if p.steps > 260 {
 				p.steps = 260
